@@ -39,12 +39,14 @@ import (
 //	close            Close()
 //	sample(dt,move)  the clock advances by dt, the counter moves, every parked sampler is woken (a sampling instant)
 //	wait(dt,move)    the clock advances by dt, the counter moves, no sampler wakes (a read between two sampling instants)
+//	read(reader)     one of the four values is read (pre-start family, prestart.go: the reads before the first Start are letters)
 //
 // After every letter all four values are read if the meter is started.
 type Op struct {
-	Kind string `json:"op"`
-	DtMs int64  `json:"dt_ms,omitempty"`
-	Move string `json:"move,omitempty"`
+	Kind   string `json:"op"`
+	DtMs   int64  `json:"dt_ms,omitempty"`
+	Move   string `json:"move,omitempty"`
+	Reader string `json:"reader,omitempty"`
 }
 
 func (o Op) String() string {
@@ -53,6 +55,8 @@ func (o Op) String() string {
 		return "Start"
 	case "close":
 		return "Close"
+	case "read":
+		return "read(" + o.Reader + ")"
 	}
 	return fmt.Sprintf("%s(+%dms,%s)", o.Kind, o.DtMs, o.Move)
 }
@@ -154,10 +158,21 @@ type lifeResult struct {
 	Step        int  // index of the failing operation
 	Restarted   bool // the failing read came after a second lifecycle operation
 	JudgedAfter int  // reads compared with the model after a second lifecycle operation
+	// pre-start family (explicit reads)
+	RefusedReads int    // read letters on a never-started meter that were refused as required
+	RefusalMsg   string // what the last of them was refused with
+	Judged       int    // operations after which all four values were compared with the model
 }
 
-// runLifecycle drives a fresh meter through ops and compares every read with the model.
-func runLifecycle(kind string, initial uint64, ops []Op) (res lifeResult) {
+// runLifecycle drives a fresh meter through ops and compares every read with the model; before the first
+// Start all four values are read (and must be refused) at the beginning and after every operation.
+func runLifecycle(kind string, initial uint64, ops []Op) lifeResult {
+	return runLifecycleOpt(kind, initial, ops, false)
+}
+
+// runLifecycleOpt: with explicitReads nothing is read before the first Start except by the history's own
+// read letters (each of which must be refused while the meter has never been started).
+func runLifecycleOpt(kind string, initial uint64, ops []Op, explicitReads bool) (res lifeResult) {
 	if !freshClock() {
 		res.Engine = "sampler goroutines of an earlier history did not end"
 		return
@@ -202,8 +217,10 @@ func runLifecycle(kind string, initial uint64, ops []Op) (res lifeResult) {
 		}
 		return nil
 	}
-	if r := refused(-1); r != nil {
-		return *r
+	if !explicitReads {
+		if r := refused(-1); r != nil {
+			return *r
+		}
 	}
 	for i, op := range ops {
 		a0 := vtime.Arrivals()
@@ -231,6 +248,26 @@ func runLifecycle(kind string, initial uint64, ops []Op) (res lifeResult) {
 				kept = 0
 				vtime.ReleaseAll()
 			}
+		case "read":
+			k := -1
+			for j := range names {
+				if names[j] == op.Reader {
+					k = j
+				}
+			}
+			if k < 0 {
+				panic("unknown reader " + op.Reader)
+			}
+			if everStarted {
+				break // after a Start all four values are read after every operation anyway (below), where the statement speaks
+			}
+			var v float64
+			p, msg := hl.Try(func() { v = getters[k]() })
+			if !p {
+				return fail(i, "not-refused-before-start/"+op.Reader, fmt.Sprintf("reading the %s rate of a meter that has never been started was not refused (it returned %v); %s", op.Reader, v, desc(i)))
+			}
+			res.RefusedReads++
+			res.RefusalMsg = msg
 		default:
 			panic("unknown operation " + op.Kind)
 		}
@@ -243,8 +280,10 @@ func runLifecycle(kind string, initial uint64, ops []Op) (res lifeResult) {
 			ref.observe(now, c) // at least one sampler completed a round at this instant
 		}
 		if !everStarted {
-			if r := refused(i); r != nil {
-				return *r
+			if !explicitReads {
+				if r := refused(i); r != nil {
+					return *r
+				}
 			}
 			continue
 		}
@@ -271,6 +310,7 @@ func runLifecycle(kind string, initial uint64, ops []Op) (res lifeResult) {
 					fmt.Sprintf("%s rate is %v, %s %v (counter now %d); %s", names[k], got[k], origin, want[k], c, desc(i)))
 			}
 		}
+		res.Judged++
 		if nLife >= 2 {
 			res.JudgedAfter++
 		}
